@@ -765,6 +765,80 @@ func c10TimerDueProp(t *testing.T, r *hx.Run, sub string) func(c c10TimerDue) hx
 	}
 }
 
+// ---- Close before (or racing) the start of Serve
+
+type c10Early struct {
+	Racing  bool  `json:"racing"`   // Serve is started in a goroutine of its own right before Close is called
+	Peers   int   `json:"peers"`    // 1-2 peers, the first active (its dial would be accepted), the second passive
+	AfterUs int64 `json:"after_us"` // racing: real-time delay between starting Serve and calling Close
+}
+
+func c10EarlyProp(t *testing.T, r *hx.Run, sub string) func(c c10Early) hx.Verdict {
+	return func(c c10Early) hx.Verdict {
+		r.SetCurrent(sub, c)
+		v := hx.Verdict{Class: fmt.Sprintf("racing=%v/peers=%d", c.Racing, c.Peers)}
+		v.NT = fmt.Sprintf("%+v", c)
+		var dev *hx.Dev
+		fail := func(key, f string, a ...any) {
+			if dev == nil {
+				dev = hx.Devf(key, f, a...)
+			}
+		}
+		o := world.Run(t, func() {
+			w, err := world.New("10.0.0.1", nil)
+			if err != nil {
+				fail("setup", "%v", err)
+				return
+			}
+			defer w.Finish()
+			for i := 0; i < c.Peers; i++ {
+				sp := world.PeerSpec{Remote: fmt.Sprintf("10.0.0.%d", 2+i), LocalAS: 64512, RemoteAS: uint32(64600 + i), Hold: 90, Passive: i == 1, IdleHoldMs: 1000, ConnRetryMs: 1000}
+				w.Net.SetPlans(sp.RemoteAddr(), memnet.DialPlan{Kind: memnet.Accept})
+				if err := w.AddPeer(sp); err != nil {
+					fail("setup", "%v", err)
+					return
+				}
+			}
+			if c.Racing {
+				w.Serve()
+				memnet.Spin(c.AfterUs)
+			}
+			ok, took := w.Call("Close", "", 5*time.Second, w.Srv.Close)
+			if !ok {
+				fail("stop-blocked", "Close did not return within %v", took)
+				return
+			}
+			evAtReturn := w.Rec.Len()
+			if !c.Racing {
+				w.Serve()
+			}
+			w.Advance(3 * time.Second)
+			ret, serr := w.ServeReturned()
+			if !ret || !errors.Is(serr, corebgp.ErrServerClosed) {
+				fail("serve-not-stopped", "Close returned, yet 3 s later Serve: returned=%v err=%v (%d dial attempts, %d plugin events since Close returned)", ret, serr, len(w.Net.Dials()), w.Rec.Len()-evAtReturn)
+				return
+			}
+			for _, cn := range w.Net.Conns() {
+				if st := cn.Snapshot(); st.HandedOver && !st.LocalClosed {
+					fail("connection-left-open", "after Close and Serve returned, connection %d is still open", st.ID)
+					return
+				}
+			}
+			for _, e := range w.Rec.Events()[evAtReturn:] {
+				if isCallbackStart(e.K) {
+					fail("callback-after-stop", "plugin callback %s started after Close had returned", e.K)
+					return
+				}
+			}
+		})
+		if b := o.Bad(); b != "" {
+			fail("wedge", "%s", b)
+		}
+		v.Dev = dev
+		return v
+	}
+}
+
 func genC10(rt *rapid.T) c10Case {
 	c := c10Case{API: pick(rt, "api", "close", "close", "del", "del", "del-add", "liserr")}
 	c.Listeners = pick(rt, "listeners", 0, 0, 1, 2)
@@ -871,6 +945,21 @@ func TestC10(t *testing.T) {
 			}
 		}
 	}, c10Prop(t, r, "stop_when_dial_is_due"))
+
+	hx.Enum(r, t, "close_before_serve", 0, func(yield func(c10Early) bool) {
+		for rep := 0; rep < 6; rep++ {
+			for _, peers := range []int{1, 2} {
+				if !yield(c10Early{Peers: peers}) {
+					return
+				}
+				for _, after := range []int64{0, 1, 5, 20, 60} {
+					if !yield(c10Early{Racing: true, Peers: peers, AfterUs: after}) {
+						return
+					}
+				}
+			}
+		}
+	}, c10EarlyProp(t, r, "close_before_serve"))
 
 	hx.Enum(r, t, "stop_when_session_timer_is_due", 0, func(yield func(c10TimerDue) bool) {
 		for _, timer := range []string{"keepalive", "hold"} {
